@@ -6,17 +6,26 @@
 #include <dirent.h>
 #include <errno.h>
 #include <fcntl.h>
+#include <ftw.h>
+#include <limits.h>
 #include <poll.h>
+#include <stdarg.h>
 #include <stdio.h>
 #include <string.h>
+#include <sys/ioctl.h>
+#include <sys/socket.h>
 #include <sys/stat.h>
+#include <sys/un.h>
 #include <unistd.h>
 
 #include <algorithm>
+#include <atomic>
 #include <map>
+#include <memory>
 #include <optional>
 #include <set>
 #include <string>
+#include <thread>
 #include <unordered_set>
 #include <vector>
 
@@ -32,8 +41,12 @@ extern "C" ssize_t __real_read(int, void*, size_t);
 extern "C" ssize_t __real_pread(int, void*, size_t, off_t);
 extern "C" int __real_open(const char*, int, ...);
 extern "C" int __real_close(int);
+extern "C" ssize_t __real_write(int, const void*, size_t);
+extern "C" int __real_poll(struct pollfd*, nfds_t, int);
 
 namespace {
+
+ssize_t pipe_read(int fd, void* buf, size_t n);
 
 vfe::Env g_env;
 
@@ -47,14 +60,34 @@ struct Source {
   size_t consumed = 0;       // bytes delivered by read() so far
   size_t calls = 0;
   std::vector<size_t> last_call_sizes;
+  // round 2
+  bool real_offset = false;  // regular file whose offset is also moved by lseek: what is left is computed from the descriptor offset
+  bool no_error = false;     // never offer the EINTR answer
+  bool pipe = false;         // fd is the read end of a real kernel pipe; the writer's pending chunks are flushed by the wrapper
+  int wfd = -1;              // write end (non-blocking); closed by the wrapper once every chunk has been flushed
+  std::vector<std::string> chunks;
+  size_t next_chunk = 0;
+  size_t in_pipe = 0;
 } g_src;
+
+// sink side: write() calls on the descriptor opened for `path` may be short (save_file / writex)
+struct Sink {
+  bool active = false;
+  int fd = -1;
+  std::string path;
+  bool error_used = false;
+  size_t calls = 0, accepted = 0;
+  bool deviated = false;
+} g_sink;
+
+int g_poll_eintr = 0;  // >0: the next Poll::poll() system call is interrupted by a signal
 
 // choice menu for a call that could deliver up to R bytes
 size_t pick_chunk(size_t R, bool* inject_error) {
   *inject_error = false;
   if (R == 0) {
     // at EOF the only other answer is an error
-    if (!g_src.error_used && !g_src.small) {
+    if (!g_src.error_used && !g_src.small && !g_src.no_error) {
       if (g_env.choose(2) == 1) { g_src.error_used = true; *inject_error = true; }
     }
     return 0;
@@ -66,7 +99,7 @@ size_t pick_chunk(size_t R, bool* inject_error) {
     menu.push_back(R);
     for (size_t k : {(size_t)1, R / 2, R - 1}) if (k >= 1 && k < R && std::find(menu.begin(), menu.end(), k) == menu.end()) menu.push_back(k);
   }
-  int nopt = (int)menu.size() + (g_src.error_used ? 0 : 1);
+  int nopt = (int)menu.size() + ((g_src.error_used || g_src.no_error) ? 0 : 1);
   int c = g_env.choose(nopt);
   if (c >= (int)menu.size()) { g_src.error_used = true; *inject_error = true; return 0; }
   return menu[c];
@@ -79,13 +112,56 @@ struct FdLog {
   int double_close = 0;
   int opens = 0;
   std::string path;  // opens of this path are owned
+  std::string path2 = "\x01none";  // a second owned path (created by O_CREAT opens)
 } g_fdlog;
 
 }  // namespace
 
+namespace {
+// Real-pipe source: the writer's pending chunks are pushed into the kernel pipe by the wrapper itself, so the whole
+// scenario stays single-threaded and deterministic while the reader sees genuine pipe semantics (fstat says FIFO,
+// st_size 0, short counts, EOF only after the writer closed).  Choice: how many pending chunks arrive before this read.
+ssize_t pipe_read(int fd, void* buf, size_t n) {
+  g_src.calls++;
+  size_t pend = g_src.chunks.size() - g_src.next_chunk;
+  std::vector<long> menu;  // number of chunks flushed before the read; -1 = EINTR
+  if (pend) {
+    size_t lo = g_src.in_pipe ? 0 : 1;  // an empty pipe with a live writer would block: something must arrive first
+    if (g_src.small) {
+      for (size_t j = pend;; j--) { if (j < lo) break; menu.push_back((long)j); if (j == 0) break; }
+    } else {
+      menu.push_back((long)pend);
+      for (size_t j : {(size_t)1, (size_t)2, pend / 2, (size_t)0}) if (j >= lo && j < pend && std::find(menu.begin(), menu.end(), (long)j) == menu.end()) menu.push_back((long)j);
+    }
+  } else menu.push_back(0);
+  if (!g_src.error_used && !g_src.no_error) menu.push_back(-1);
+  long j = menu.size() > 1 ? menu[g_env.choose((int)menu.size())] : menu[0];
+  if (j < 0) { g_src.error_used = true; errno = EINTR; return -1; }
+  for (long k = 0; k < j && g_src.next_chunk < g_src.chunks.size(); k++) {
+    std::string& c = g_src.chunks[g_src.next_chunk];
+    ssize_t w = c.empty() ? 0 : __real_write(g_src.wfd, c.data(), c.size());
+    if (w < 0) w = 0;
+    g_src.in_pipe += w;
+    if ((size_t)w < c.size()) { c.erase(0, w); break; }  // kernel pipe full: the rest stays pending
+    g_src.next_chunk++;
+  }
+  if (g_src.next_chunk == g_src.chunks.size() && g_src.wfd >= 0) { __real_close(g_src.wfd); g_src.wfd = -1; }
+  if (g_src.in_pipe == 0 && g_src.wfd >= 0 && n > 0) {  // would block forever (cannot happen: lo == 1 above); fail loudly
+    fprintf(stderr, "C14 pipe source: read on an empty pipe with a live writer\n");
+    _exit(3);
+  }
+  ssize_t r = __real_read(fd, buf, n);
+  if (r > 0) { g_src.in_pipe -= r; g_src.consumed += r; }
+  g_src.last_call_sizes.push_back(r < 0 ? 0 : r);
+  return r;
+}
+}  // namespace
+
 extern "C" ssize_t __wrap_read(int fd, void* buf, size_t n) {
   if (!g_src.active || fd != g_src.fd || fd < 0) return __real_read(fd, buf, n);
+  if (g_src.pipe) return pipe_read(fd, buf, n);
   g_src.calls++;
+  if (g_src.real_offset) { off_t o = lseek(fd, 0, SEEK_CUR); if (o >= 0) g_src.consumed = (size_t)o; }
   size_t remaining = g_src.size - std::min(g_src.size, g_src.consumed);
   bool err;
   size_t k = pick_chunk(std::min(n, remaining), &err);
@@ -118,7 +194,8 @@ extern "C" int __wrap_open(const char* path, int flags, ...) {
   }
   int fd = __real_open(path, flags, mode);
   if (g_src.active && !g_src.path.empty() && g_src.path == path && fd >= 0) g_src.fd = fd;
-  if (g_fdlog.active && g_fdlog.path == path && fd >= 0) { g_fdlog.live.insert(fd); g_fdlog.opens++; }
+  if (g_sink.active && !g_sink.path.empty() && g_sink.path == path && fd >= 0) g_sink.fd = fd;
+  if (g_fdlog.active && fd >= 0 && (g_fdlog.path == path || g_fdlog.path2 == path)) { g_fdlog.live.insert(fd); g_fdlog.opens++; }
   return fd;
 }
 
@@ -129,30 +206,54 @@ extern "C" int __wrap_close(int fd) {
     else if (fd >= 0) g_fdlog.double_close++;
   }
   if (g_src.active && fd == g_src.fd && !g_src.path.empty()) g_src.fd = -2;
+  if (g_sink.active && fd == g_sink.fd) g_sink.fd = -2;
   return __real_close(fd);
+}
+
+// short writes: {everything, 1 byte, half, all but one, EINTR/ENOSPC error}
+extern "C" ssize_t __wrap_write(int fd, const void* buf, size_t n) {
+  if (!g_sink.active || fd != g_sink.fd || fd < 0) return __real_write(fd, buf, n);
+  g_sink.calls++;
+  std::vector<size_t> menu = {n};
+  for (size_t k : {(size_t)1, n / 2, n - 1}) if (n && k >= 1 && k < n && std::find(menu.begin(), menu.end(), k) == menu.end()) menu.push_back(k);
+  if (n > 1) menu.push_back(0);  // a write that accepts nothing (returns 0)
+  int nopt = (int)menu.size() + (g_sink.error_used ? 0 : 2);
+  int c = g_env.choose(nopt);
+  if (c != 0) g_sink.deviated = true;
+  if (c >= (int)menu.size()) { g_sink.error_used = true; errno = c == (int)menu.size() ? EINTR : ENOSPC; return -1; }
+  ssize_t w = menu[c] ? __real_write(fd, buf, menu[c]) : 0;
+  if (w > 0) g_sink.accepted += w;
+  return w;
+}
+
+extern "C" int __wrap_poll(struct pollfd* fds, nfds_t n, int timeout) {
+  if (g_poll_eintr > 0) { g_poll_eintr--; errno = EINTR; return -1; }
+  return __real_poll(fds, n, timeout);
 }
 
 namespace {
 
+// reference tree removal (independent of phosg: nftw, physical walk, children first)
+int rm_cb(const char* p, const struct stat*, int, struct FTW*) { ::remove(p); return 0; }
+void rm_rf(const std::string& d) {
+  struct stat st;
+  if (::lstat(d.c_str(), &st)) return;
+  nftw(d.c_str(), rm_cb, 32, FTW_DEPTH | FTW_PHYS);
+}
 std::string scratch_dir(vf::Run& r, const char* what) {
   std::string d = std::string(getenv("VF_ROOT") ? getenv("VF_ROOT") : ".") + "/build/scratch";
   mkdir(d.c_str(), 0755);
   d += "/C14";
   mkdir(d.c_str(), 0755);
   d += vf::fmt("/%s-%s-%llu-%d", what, r.tier.c_str(), (unsigned long long)r.shard, (int)getpid());
-  std::string cmd = "rm -rf '" + d + "'";
-  if (system(cmd.c_str())) {}
+  rm_rf(d);
   mkdir(d.c_str(), 0755);
   return d;
-}
-void rm_rf(const std::string& d) {
-  std::string cmd = "rm -rf '" + d + "'";
-  if (system(cmd.c_str())) {}
 }
 
 std::string content(size_t n) {
   std::string s(n, 0);
-  for (size_t i = 0; i < n; i++) s[i] = (char)((i % 251) + 1);  // never NUL: padding with zeros is visible
+  for (size_t i = 0; i < n; i++) s[i] = (char)((i % 255) + 1);  // every byte value 01..FF (FF = EOF as a char); never NUL: padding with zeros is visible
   return s;
 }
 
@@ -166,6 +267,8 @@ void write_real(const std::string& path, const std::string& d) {
   }
   __real_close(fd);
 }
+
+bool exists_l(const std::string& p) { struct stat st; return ::lstat(p.c_str(), &st) == 0; }
 
 std::string brief(const std::string& s) {
   if (s.size() <= 24) return vf::show(s);
@@ -296,6 +399,7 @@ struct Cookie {
   bool choices = false;      // chunk sizes are choice points
   size_t fixed_chunk = 0;    // else: deliver at most this many bytes per callback (0 = all)
   size_t calls = 0;
+  bool fail_at_end = false;  // instead of end-of-file the callback reports an error (EIO)
 };
 
 ssize_t cookie_read(void* cv, char* buf, size_t n) {
@@ -303,6 +407,7 @@ ssize_t cookie_read(void* cv, char* buf, size_t n) {
   c->calls++;
   size_t R = std::min(n, c->data.size() - c->pos);
   size_t k = R;
+  if (R == 0 && c->fail_at_end) { errno = EIO; return -1; }
   if (R > 0) {
     if (c->choices) {
       std::vector<size_t> menu = {R};
@@ -399,7 +504,16 @@ VF_SECTION(fgets_lines, 16, 16, 240) {
   const std::vector<std::string> follow = {"", "xy\n", std::string(300, 'q') + "\n"};
   const std::vector<size_t> chunking = r.thorough() ? std::vector<size_t>{0, 1, 7, 255, 256} : std::vector<size_t>{0, 1, 255};
   size_t maxlen = 1100;
-  for (size_t len = 0; len <= maxlen; len++) {
+  std::vector<size_t> lens;
+  for (size_t len = 0; len <= maxlen; len++) lens.push_back(len);
+  // far beyond any internal block: multiples of the 255-character block +-1, powers of two +-1 up to 128 KiB
+  {
+    std::set<size_t> far;
+    for (size_t k = 5; k <= (r.thorough() ? 80u : 24u); k++) for (size_t x : {255 * k - 2, 255 * k - 1, 255 * k, 255 * k + 1}) far.insert(x);
+    for (size_t k = 11; k <= 17; k++) for (size_t x : {((size_t)1 << k) - 1, (size_t)1 << k, ((size_t)1 << k) + 1}) far.insert(x);
+    for (size_t x : far) if (x > maxlen) lens.push_back(x);
+  }
+  for (size_t len : lens) {
     for (int nl = 0; nl < 2; nl++) {
       for (size_t fi = 0; fi < follow.size(); fi++) {
         if (!nl && fi) continue;  // an EOF-terminated line has nothing after it
@@ -451,8 +565,11 @@ VF_SECTION(fgets_lines, 16, 16, 240) {
       }
     }
   }
-  r.bound = "every line length 0..1100 x {\\n, EOF} x 3 followers x per-callback delivery sizes";
+  r.bound = vf::fmt("every line length 0..1100 plus %zu lengths to 131073 (255k-2..255k+1, 2^k-1..2^k+1) x {\\n, EOF} x 3 followers x per-callback delivery sizes", lens.size() - 1101);
 }
+
+#include "C14_hist.hh"
+#include "C14_objs.hh"
 
 // ---- files, paths, directories ------------------------------------------------------------------------
 
@@ -489,8 +606,8 @@ VF_SECTION(files, 4, 8, 240) {
   r.bound = "every size 0..300 plus 9 block-boundary sizes up to 200 KiB";
 }
 
-VF_SECTION(paths, 1, 1, 120) {
-  vf::all_strings("a/.", r.thorough() ? 9 : 7, [&](const std::string& p) {
+VF_SECTION(paths, 2, 2, 120) {
+  auto one = [&](const std::string& p) {
     if (!r.take()) return;
     if (r.wants_desc()) r.desc("dirname/basename of " + vf::show(p));
     std::string dn = dirname(p), bn = basename(p);
@@ -500,124 +617,231 @@ VF_SECTION(paths, 1, 1, 120) {
     else if (has && dn + "/" + bn != p) r.fail("dirname/basename:law", [&] { return vf::show(p) + " -> dirname " + vf::show(dn) + " basename " + vf::show(bn); });
     else if (!has && (bn != p || !dn.empty())) r.fail("dirname/basename:no-slash", [&] { return vf::show(p) + " -> dirname " + vf::show(dn) + " basename " + vf::show(bn); });
     else r.ok(has ? "with-slash" : "no-slash");
-  });
-  r.bound = "all strings over {a,/,.} up to the stated length";
+  };
+  vf::all_strings("a/.", r.thorough() ? 9 : 7, one);
+  // other bytes: NUL, backslash, space, a high byte (the law is about any path containing a slash)
+  vf::all_strings(std::string("/\0\\ \xE9", 5), r.thorough() ? 6 : 5, one);
+  // long components (beyond any small-string buffer) on either side of the last slash
+  for (size_t a : {0, 1, 15, 16, 23, 24, 255, 4096}) for (size_t b : {0, 1, 15, 16, 23, 24, 255, 4096}) for (int lead = 0; lead < 2; lead++)
+    one(std::string(lead, '/') + std::string(a, 'd') + "/" + std::string(b, 'b'));
+  r.bound = "all strings over {a,/,.} up to the stated length; all strings over {/,NUL,backslash,space,0xE9} up to 5 (6); 128 paths with components of 0..4096 bytes";
 }
 
 namespace {
-enum Kind { K_FILE, K_DIR, K_DIR_FILE, K_LINK_FILE, K_LINK_DIR, K_DANGLING, K_DIR_WITH_LINKDIR, NKIND };
-const char* kind_name[] = {"file", "emptydir", "dir+file", "symlink->outside file", "symlink->outside dir", "dangling symlink", "dir containing symlink->outside dir"};
-bool exists_l(const std::string& p) { struct stat st; return ::lstat(p.c_str(), &st) == 0; }
+enum Kind { K_FILE, K_DIR, K_DIR_FILE, K_LINK_FILE, K_LINK_DIR, K_DANGLING, K_DIR_WITH_LINKDIR, K_FIFO, K_DEEP3, K_DIR_ODD, K_DEEP_LINKS, K_SELF_LINK, NKIND };
+const char* kind_name[] = {"file", "emptydir", "dir+file", "symlink->outside file", "symlink->outside dir", "dangling symlink", "dir containing symlink->outside dir", "FIFO", "dir/dir/dir/file + dir/file", "dir containing {dangling symlink, FIFO, empty dir, symlink to itself}", "dir/dir/{symlink->outside dir, symlink->tree root}", "symlink to itself"};
+
+// creates entry `p` of the given kind; `outside` is a directory that must survive
+void make_entry(const std::string& p, int k, const std::string& outside, const std::string& root) {
+  switch (k) {
+    case K_FILE: write_real(p, "data"); break;
+    case K_DIR: mkdir(p.c_str(), 0755); break;
+    case K_DIR_FILE: mkdir(p.c_str(), 0755); write_real(p + "/inner", "i"); break;
+    case K_LINK_FILE: if (symlink((outside + "/ofile").c_str(), p.c_str())) {} break;
+    case K_LINK_DIR: if (symlink((outside + "/odir").c_str(), p.c_str())) {} break;
+    case K_DANGLING: if (symlink((outside + "/nonexistent").c_str(), p.c_str())) {} break;
+    case K_DIR_WITH_LINKDIR: mkdir(p.c_str(), 0755); if (symlink((outside + "/odir").c_str(), (p + "/l").c_str())) {} break;
+    case K_FIFO: mkfifo(p.c_str(), 0644); break;
+    case K_DEEP3:
+      mkdir(p.c_str(), 0755);
+      mkdir((p + "/d1").c_str(), 0755);
+      mkdir((p + "/d1/d2").c_str(), 0755);
+      write_real(p + "/d1/d2/deep", "deep");
+      write_real(p + "/d1/.hidden", "h");
+      break;
+    case K_DIR_ODD:
+      mkdir(p.c_str(), 0755);
+      if (symlink((outside + "/nonexistent").c_str(), (p + "/dangling").c_str())) {}
+      mkfifo((p + "/fifo").c_str(), 0644);
+      mkdir((p + "/empty").c_str(), 0755);
+      if (symlink("self", (p + "/self").c_str())) {}
+      break;
+    case K_DEEP_LINKS:
+      mkdir(p.c_str(), 0755);
+      mkdir((p + "/d1").c_str(), 0755);
+      if (symlink((outside + "/odir").c_str(), (p + "/d1/out").c_str())) {}
+      if (symlink(root.c_str(), (p + "/d1/up").c_str())) {}
+      break;
+    case K_SELF_LINK: if (symlink(p.substr(p.rfind('/') + 1).c_str(), p.c_str())) {} break;
+  }
+}
 }  // namespace
 
-VF_SECTION(dirs, 8, 16, 240) {
+VF_SECTION(dirs, 16, 16, 240) {
   std::string base = scratch_dir(r, "dirs");
   const std::vector<std::string> names = {"a", "b", ".h", "x y"};
   size_t maxk = r.thorough() ? 4 : 3;
   // every subset of names (size <= maxk) with every assignment of kinds
-  struct Tree { std::vector<int> members; std::vector<uint32_t> kinds; };
+  struct Tree { std::vector<std::string> members; std::vector<uint32_t> kinds; int rootform; };
   std::vector<Tree> trees;
+  // trees of maxk entries use the 7 basic kinds (K_FILE..K_DIR_WITH_LINKDIR), smaller trees all NKIND kinds
   for (uint32_t mask = 0; mask < 16; mask++) {
-    if ((size_t)__builtin_popcount(mask) > maxk) continue;
-    std::vector<int> members;
-    for (int i = 0; i < 4; i++) if (mask & (1u << i)) members.push_back(i);
-    if (members.empty()) { trees.push_back({members, {}}); continue; }
-    for (vf::Odometer od(std::vector<uint32_t>(members.size(), NKIND)); !od.done; od.step()) trees.push_back({members, od.d});
+    size_t cnt = (size_t)__builtin_popcount(mask);
+    if (cnt > maxk) continue;
+    std::vector<std::string> members;
+    for (int i = 0; i < 4; i++) if (mask & (1u << i)) members.push_back(names[i]);
+    if (members.empty()) { trees.push_back({members, {}, 0}); continue; }
+    for (vf::Odometer od(std::vector<uint32_t>(members.size(), cnt == maxk ? (uint32_t)K_FIFO : (uint32_t)NKIND)); !od.done; od.step()) trees.push_back({members, od.d, 0});
   }
   std::stable_sort(trees.begin(), trees.end(), [](const Tree& a, const Tree& b) { return a.members.size() < b.members.size(); });
+  // names with unusual bytes (everything a file name may contain), alone with 3 kinds and all together
+  const std::vector<std::string> odd = {"..a", "...", "-rf", "*", "a\nb", "\x01", "\xff\xfe", "\\", " ", "~", std::string(255, 'L'), "\xc3\xa9"};
+  for (auto& nm : odd) for (uint32_t k : {(uint32_t)K_FILE, (uint32_t)K_DIR_FILE, (uint32_t)K_DANGLING}) trees.push_back({{nm}, {k}, 0});
+  for (uint32_t k : {(uint32_t)K_FILE, (uint32_t)K_DEEP3, (uint32_t)K_DIR_ODD}) trees.push_back({odd, std::vector<uint32_t>(odd.size(), k), 0});
+  // many entries (several getdents batches)
+  for (size_t count : {300, 3000}) {
+    Tree t{{}, {}, 0};
+    for (size_t i = 0; i < count; i++) { t.members.push_back(vf::fmt("entry-%05zu-%s", i, std::string(i % 40, 'n').c_str())); t.kinds.push_back(i % 97 == 0 ? K_DIR_FILE : i % 89 == 0 ? K_DANGLING : K_FILE); }
+    trees.push_back(t);
+  }
+  // the root named differently: with a trailing slash; through a symlink (unlink removes only the link)
+  for (int form = 1; form <= 2; form++) for (uint32_t k = 0; k < NKIND; k++) trees.push_back({{"a", ".h"}, {k, K_DEEP3}, form});
+  // the "tree" is a single non-directory (file, FIFO, symlinks): unlink(p, true) removes just it
+  for (uint32_t k : {(uint32_t)K_FILE, (uint32_t)K_FIFO, (uint32_t)K_LINK_FILE, (uint32_t)K_LINK_DIR, (uint32_t)K_DANGLING, (uint32_t)K_SELF_LINK}) trees.push_back({{}, {k}, 3});
+  // a path that does not exist: outside the statement, executed only
+  trees.push_back({{}, {}, 4});
   for (auto& tree : trees) {
-    {
-      const std::vector<int>& members = tree.members;
-      struct { const std::vector<uint32_t>& d; } od{tree.kinds};
-      if (!r.take()) continue;
-      r.note("list_directory/unlink");
-      std::string root = base + "/root", outside = base + "/outside";
-      rm_rf(root);
+    if (!r.take()) continue;
+    const std::vector<std::string>& members = tree.members;
+    r.note("list_directory/unlink");
+    std::string root = base + "/root", outside = base + "/outside", rootlink = base + "/rootlink";
+    if (tree.rootform >= 3) {
+      if (exists_l(root)) rm_rf(root);
+      if (!(exists_l(outside + "/odir/keep") && exists_l(outside + "/ofile"))) {
+        rm_rf(outside);
+        mkdir(outside.c_str(), 0755);
+        mkdir((outside + "/odir").c_str(), 0755);
+        write_real(outside + "/odir/keep", "keep");
+        write_real(outside + "/ofile", "ofile");
+      }
+      std::string what;
+      if (tree.rootform == 4) {
+        if (r.wants_desc()) r.desc("list_directory / unlink(p, true) on a path that does not exist: executed, not compared");
+        std::string o1 = vf::outcome([&] { list_directory(root); }), o1s = vf::outcome([&] { list_directory_sorted(root); }), o2 = vf::outcome([&] { phosg::unlink(root, true); });
+        r.ok("dont-care:missing-path:list-" + o1 + ":sorted-" + o1s + ":unlink-" + o2);
+        continue;
+      }
+      make_entry(root, tree.kinds[0], outside, base);
+      if (r.wants_desc()) r.desc(std::string("unlink(p, true) where p is a ") + kind_name[tree.kinds[0]]);
+      r.nontriv();
+      std::string out = vf::outcome([&] { phosg::unlink(root, true); }, &what);
+      if (!(exists_l(outside + "/odir/keep") && exists_l(outside + "/ofile"))) r.fail("unlink(recursive):deletes-through-symlink", [&] { return std::string("unlink(p, true) where p is a ") + kind_name[tree.kinds[0]] + ": the link's target was removed or emptied"; });
+      else if (out != "ok") r.fail("unlink(recursive):throws", [&] { return std::string("unlink(p, true) where p is a ") + kind_name[tree.kinds[0]] + ": " + out + " " + what; });
+      else if (exists_l(root)) r.fail("unlink(recursive):tree-remains", [&] { return std::string("unlink(p, true) where p is a ") + kind_name[tree.kinds[0]] + ": p still exists"; });
+      else r.ok("single-non-directory");
+      continue;
+    }
+    if (exists_l(root)) rm_rf(root);
+    ::unlink(rootlink.c_str());
+    mkdir(root.c_str(), 0755);
+    // the outside directory is kept between trees as long as it is intact (it is checked after every unlink)
+    if (!(exists_l(outside + "/odir/keep") && exists_l(outside + "/ofile"))) {
       rm_rf(outside);
-      mkdir(root.c_str(), 0755);
       mkdir(outside.c_str(), 0755);
       mkdir((outside + "/odir").c_str(), 0755);
       write_real(outside + "/odir/keep", "keep");
       write_real(outside + "/ofile", "ofile");
-      std::string desc;
-      std::set<std::string> want;
-      for (size_t i = 0; i < members.size(); i++) {
-        std::string nm = names[members[i]], p = root + "/" + nm;
-        int k = od.d[i];
-        desc += vf::show(nm) + "=" + kind_name[k] + "; ";
-        want.insert(nm);
-        switch (k) {
-          case K_FILE: write_real(p, "data"); break;
-          case K_DIR: mkdir(p.c_str(), 0755); break;
-          case K_DIR_FILE: mkdir(p.c_str(), 0755); write_real(p + "/inner", "i"); break;
-          case K_LINK_FILE: if (symlink((outside + "/ofile").c_str(), p.c_str())) {} break;
-          case K_LINK_DIR: if (symlink((outside + "/odir").c_str(), p.c_str())) {} break;
-          case K_DANGLING: if (symlink((outside + "/nonexistent").c_str(), p.c_str())) {} break;
-          case K_DIR_WITH_LINKDIR: mkdir(p.c_str(), 0755); if (symlink((outside + "/odir").c_str(), (p + "/l").c_str())) {} break;
-        }
-      }
-      if (r.wants_desc()) r.desc("tree { " + desc + "}");
-      if (!members.empty()) r.nontriv();
-      std::string what;
-      std::unordered_set<std::string> got;
-      std::vector<std::string> gots;
-      std::string out = vf::outcome([&] { got = list_directory(root); gots = list_directory_sorted(root); }, &what);
-      std::set<std::string> gotset(got.begin(), got.end());
-      bool bad = false;
-      if (out != "ok") { r.fail("list_directory:throws", [&] { return "tree { " + desc + "}: " + out + " " + what; }); bad = true; }
-      else if (gotset != want || got.size() != want.size()) { r.fail("list_directory:names", [&] { return "tree { " + desc + "}: returned " + std::to_string(got.size()) + " names"; }); bad = true; }
-      else if (gots != std::vector<std::string>(want.begin(), want.end())) { r.fail("list_directory_sorted:order-or-names", [&] { return "tree { " + desc + "}"; }); bad = true; }
-      out = vf::outcome([&] { phosg::unlink(root, true); }, &what);
-      bool outside_ok = exists_l(outside + "/odir/keep") && exists_l(outside + "/ofile") && exists_l(outside + "/odir");
-      if (!outside_ok) { r.fail("unlink(recursive):deletes-through-symlink", [&] { return "tree { " + desc + "}: a symlink's target outside the tree was modified (outside/odir/keep or outside/ofile is gone); unlink " + out + " " + what; }); bad = true; }
-      else if (out != "ok") { r.fail("unlink(recursive):throws", [&] { return "tree { " + desc + "}: " + out + " " + what; }); bad = true; }
-      else if (exists_l(root)) { r.fail("unlink(recursive):tree-remains", [&] { return "tree { " + desc + "}: root still exists after unlink(root, true)"; }); bad = true; }
-      if (!bad) r.ok("listed-and-removed");
     }
+    std::string desc;
+    std::set<std::string> want;
+    for (size_t i = 0; i < members.size(); i++) {
+      const std::string& nm = members[i];
+      if (members.size() <= 12 || i < 3) desc += vf::show(nm.size() > 40 ? nm.substr(0, 40) + "..." : nm) + "=" + kind_name[tree.kinds[i]] + "; ";
+      want.insert(nm);
+      make_entry(root + "/" + nm, tree.kinds[i], outside, root);
+    }
+    if (members.size() > 12) desc += vf::fmt("... %zu entries; ", members.size());
+    std::string arg = root;
+    if (tree.rootform == 1) { arg = root + "/"; desc += "root passed with a trailing slash; "; }
+    if (tree.rootform == 2) { if (symlink(root.c_str(), rootlink.c_str())) {} arg = rootlink; desc += "root passed through a symlink to it; "; }
+    if (r.wants_desc()) r.desc("tree { " + desc + "}");
+    if (!members.empty()) r.nontriv();
+    std::string what;
+    std::unordered_set<std::string> got;
+    std::vector<std::string> gots;
+    std::string out = vf::outcome([&] { got = list_directory(arg); gots = list_directory_sorted(arg); }, &what);
+    std::set<std::string> gotset(got.begin(), got.end());
+    bool bad = false;
+    if (out != "ok") { r.fail("list_directory:throws", [&] { return "tree { " + desc + "}: " + out + " " + what; }); bad = true; }
+    else if (gotset != want || got.size() != want.size()) {
+      r.fail("list_directory:names", [&] {
+        std::string diff;
+        for (auto& w : want) if (!gotset.count(w) && diff.size() < 300) diff += " missing " + vf::show(w.substr(0, 40));
+        for (auto& g : gotset) if (!want.count(g) && diff.size() < 300) diff += " extra " + vf::show(g.substr(0, 40));
+        return "tree { " + desc + "}: returned " + std::to_string(got.size()) + " names, the directory holds " + std::to_string(want.size()) + ":" + diff;
+      });
+      bad = true;
+    } else if (gots != std::vector<std::string>(want.begin(), want.end())) { r.fail("list_directory_sorted:order-or-names", [&] { return "tree { " + desc + "}"; }); bad = true; }
+    out = vf::outcome([&] { phosg::unlink(arg, true); }, &what);
+    bool outside_ok = exists_l(outside + "/odir/keep") && exists_l(outside + "/ofile") && exists_l(outside + "/odir");
+    if (!outside_ok) { r.fail("unlink(recursive):deletes-through-symlink", [&] { return "tree { " + desc + "}: a symlink's target outside the tree was modified (outside/odir/keep or outside/ofile is gone); unlink " + out + " " + what; }); bad = true; }
+    else if (out != "ok") { r.fail("unlink(recursive):throws", [&] { return "tree { " + desc + "}: " + out + " " + what; }); bad = true; }
+    else if (tree.rootform == 2) {
+      // the argument is a symlink: it is removed as a link, its target (the tree) is not part of it
+      if (exists_l(rootlink)) { r.fail("unlink(recursive):tree-remains", [&] { return "tree { " + desc + "}: the symlink passed to unlink(link, true) still exists"; }); bad = true; }
+      else {
+        std::set<std::string> still;
+        if (DIR* dp = opendir(root.c_str())) { while (struct dirent* e = readdir(dp)) if (strcmp(e->d_name, ".") && strcmp(e->d_name, "..")) still.insert(e->d_name); closedir(dp); }
+        if (still != want) { r.fail("unlink(recursive):deletes-through-symlink", [&] { return "tree { " + desc + "}: unlink(link-to-root, true) removed entries of the directory the link points to"; }); bad = true; }
+      }
+    } else if (exists_l(root)) { r.fail("unlink(recursive):tree-remains", [&] { return "tree { " + desc + "}: root still exists after unlink(root, true)"; }); bad = true; }
+    if (!bad) r.ok(members.size() > 12 ? "big-directory" : tree.rootform ? "root-named-differently" : "listed-and-removed");
   }
   rm_rf(base);
-  r.bound = vf::fmt("every tree with <=%zu entries over 4 names x 7 entry kinds", maxk);
+  r.bound = vf::fmt("every tree with <%zu entries over 4 names x %d entry kinds (depth to 4, FIFOs, dangling/self/ancestor links) and with %zu entries over the 7 basic kinds; 12 names with unusual bytes x 3 kinds and together; directories of 300 and 3000 entries; root with trailing slash / through a symlink x %d kinds", maxk, (int)NKIND, maxk, (int)NKIND);
 }
 
 // ---- scoped_fd ------------------------------------------------------------------------------------------
 
 namespace {
-enum SOp { S_CTOR_OPEN_X, S_CTOR_INT_X, S_MOVE_CTOR_Y_FROM_X, S_MOVE_ASSIGN_Y_X, S_MOVE_ASSIGN_X_Y, S_ASSIGN_INT_X, S_CLOSE_X, S_OPEN_X, S_DTOR_X, S_DTOR_Y, S_CTOR_DEFAULT_Y, S_SELF_CLOSE_TWICE_X, NSOP };
-const char* sop_name[] = {"X=scoped_fd(path)", "X=scoped_fd(int)", "Y=scoped_fd(move(X))", "Y=move(X)", "X=move(Y)", "X=int", "X.close()", "X.open(path)", "~X", "~Y", "Y=scoped_fd()", "X.close();X.close()"};
+enum SOp { S_CTOR_OPEN_X, S_CTOR_INT_X, S_MOVE_CTOR_Y_FROM_X, S_MOVE_ASSIGN_Y_X, S_MOVE_ASSIGN_X_Y, S_ASSIGN_INT_X, S_CLOSE_X, S_OPEN_X, S_DTOR_X, S_DTOR_Y, S_CTOR_DEFAULT_Y, S_SELF_CLOSE_TWICE_X,
+           S_CTOR_CSTR_X, S_OPEN_CSTR_X, S_OPEN_STR_CREAT_X, S_OPEN_CSTR_CREAT_X, S_OPEN_FAIL_CSTR_X, S_OPEN_FAIL_STR_X, S_SELF_MOVE_X, NSOP };
+const char* sop_name[] = {"X=scoped_fd(string path)", "X=scoped_fd(int)", "Y=scoped_fd(move(X))", "Y=move(X)", "X=move(Y)", "X=int", "X.close()", "X.open(string path)", "~X", "~Y", "Y=scoped_fd()", "X.close();X.close()",
+                          "X=scoped_fd(const char* path)", "X.open(const char* path)", "X.open(string path2,O_CREAT|O_RDWR,0600)", "X.open(const char* path2,O_CREAT|O_RDWR,0600)", "X.open(const char* missing) [throws]", "X.open(string missing) [throws]", "X=move(X)"};
+struct Unwind {};
 }  // namespace
 
-VF_SECTION(scoped_fd_histories, 8, 16, 240) {
+VF_SECTION(scoped_fd_histories, 16, 16, 240) {
   std::string dir = scratch_dir(r, "sfd");
-  std::string path = dir + "/f";
+  std::string path = dir + "/f", path2 = dir + "/created", missing = dir + "/no-such-dir/x";
   write_real(path, "x");
   size_t depth = r.thorough() ? 6 : 5;
-  std::vector<uint32_t> radix(depth, NSOP + 1);  // NSOP = "stop" (shorter histories)
+  // symbols: 0..NSOP-1 operations, NSOP = stop (scope left normally), NSOP+1 = stop by an exception (objects destroyed during unwinding)
+  std::vector<uint32_t> radix(depth, NSOP + 2);
   for (vf::Odometer od(radix); !od.done; od.step()) {
-    // canonical form: a "stop" is only allowed at the tail
-    bool canon = true, stopped = false;
+    // canonical form: a stop is only allowed at the tail; "unwind" only as the first stop symbol
+    bool canon = true, stopped = false, unwind = false;
     size_t len = 0;
     for (size_t i = 0; i < depth; i++) {
-      if (od.d[i] == NSOP) stopped = true;
+      if (od.d[i] >= NSOP) { if (stopped && od.d[i] != NSOP) canon = false; if (!stopped && od.d[i] == NSOP + 1) unwind = true; stopped = true; }
       else { if (stopped) canon = false; len++; }
     }
     if (!canon) continue;
+    if (len == depth && !unwind) {
+      // a full-length history has no stop symbol: it ends normally; its unwinding twin is enumerated at depth-1 only
+    }
     if (!r.take()) continue;
     r.note("scoped_fd");
-    auto hist = [&] { std::string h; for (size_t i = 0; i < len; i++) h += std::string(sop_name[od.d[i]]) + "; "; return h; };
+    size_t fail_step = 0;  // 0: no step failed (the end-of-scope check did)
+    auto hist = [&] { std::string h; for (size_t i = 0; i < (fail_step ? fail_step : len); i++) h += std::string(sop_name[od.d[i]]) + "; "; return h + (fail_step ? "" : unwind ? "throw (objects destroyed during unwinding)" : "end of scope"); };
     if (r.wants_desc()) r.desc(hist());
     g_fdlog = FdLog();
     g_fdlog.active = true;
     g_fdlog.path = path;
+    g_fdlog.path2 = path2;
     std::string fail;
-    {
+    bool skipped = false;
+    try {
       std::optional<scoped_fd> X, Y;
       int mx = -1, my = -1;  // model: descriptor held, -1 none
       auto fresh_fd = [&] { int fd = dup(2); g_fdlog.live.insert(fd); return fd; };
       auto model_close = [&](int& m) { m = -1; };
-      bool skipped = false;
+      auto observed = [&](std::optional<scoped_fd>& o) { return o->is_open() ? (int)*o : -1; };
       for (size_t i = 0; i < len && fail.empty(); i++) {
+        r.poison_errno();
         switch (od.d[i]) {
           case S_CTOR_OPEN_X: if (X) { skipped = true; break; } X.emplace(path, O_RDONLY); mx = (int)*X; break;
+          case S_CTOR_CSTR_X: if (X) { skipped = true; break; } X.emplace(path.c_str(), O_RDONLY); mx = (int)*X; break;
           case S_CTOR_INT_X: if (X) { skipped = true; break; } { int fd = fresh_fd(); X.emplace(fd); mx = fd; } break;
           case S_MOVE_CTOR_Y_FROM_X: if (!X || Y) { skipped = true; break; } Y.emplace(std::move(*X)); my = mx; mx = -1; break;
           case S_MOVE_ASSIGN_Y_X: if (!X || !Y) { skipped = true; break; } *Y = std::move(*X); model_close(my); my = mx; mx = -1; break;
@@ -625,6 +849,26 @@ VF_SECTION(scoped_fd_histories, 8, 16, 240) {
           case S_ASSIGN_INT_X: if (!X) { skipped = true; break; } { int fd = fresh_fd(); *X = fd; mx = fd; } break;
           case S_CLOSE_X: if (!X) { skipped = true; break; } X->close(); mx = -1; break;
           case S_OPEN_X: if (!X) { skipped = true; break; } X->open(path, O_RDONLY); mx = (int)*X; break;
+          case S_OPEN_CSTR_X: if (!X) { skipped = true; break; } X->open(path.c_str(), O_RDONLY); mx = (int)*X; break;
+          case S_OPEN_STR_CREAT_X: if (!X) { skipped = true; break; } X->open(path2, O_CREAT | O_RDWR, 0600); mx = (int)*X; break;
+          case S_OPEN_CSTR_CREAT_X: if (!X) { skipped = true; break; } X->open(path2.c_str(), O_CREAT | O_RDWR, 0600); mx = (int)*X; break;
+          case S_OPEN_FAIL_CSTR_X:
+          case S_OPEN_FAIL_STR_X: {
+            if (!X) { skipped = true; break; }
+            // a failed open: the statement fixes neither whether the old descriptor survives nor the exception; whatever the
+            // object reports afterwards is taken over by the model, and the ownership invariant below must still hold
+            std::string o = vf::outcome([&] { if (od.d[i] == S_OPEN_FAIL_CSTR_X) X->open(missing.c_str(), O_RDONLY); else X->open(missing, O_RDONLY); });
+            (void)o;
+            mx = observed(X);
+            break;
+          }
+          case S_SELF_MOVE_X: {
+            if (!X) { skipped = true; break; }
+            scoped_fd& alias = *X;
+            *X = std::move(alias);  // either keeps or releases the descriptor; never leaks or double-closes
+            mx = observed(X);
+            break;
+          }
           case S_DTOR_X: if (!X) { skipped = true; break; } X.reset(); mx = -1; break;
           case S_DTOR_Y: if (!Y) { skipped = true; break; } Y.reset(); my = -1; break;
           case S_CTOR_DEFAULT_Y: if (Y) { skipped = true; break; } Y.emplace(); my = -1; break;
@@ -639,20 +883,29 @@ VF_SECTION(scoped_fd_histories, 8, 16, 240) {
         if (mx >= 0) held.insert(mx);
         if (my >= 0) held.insert(my);
         if (fail.empty() && g_fdlog.live != held) fail = vf::fmt("after step %zu the set of open owned descriptors (%zu) differs from the descriptors the objects hold (%zu): leak or premature close", i + 1, g_fdlog.live.size(), held.size());
+        if (!fail.empty()) fail_step = i + 1;
       }
-      if (skipped) { g_fdlog.active = false; r.evals--; r.ok("inapplicable-history"); continue; }
-    }  // destructors
+      if (!skipped && unwind) throw Unwind();
+    } catch (const Unwind&) {
+    }  // destructors have run in both cases
+    if (skipped) {
+      for (int fd : g_fdlog.live) __real_close(fd);
+      g_fdlog.active = false;
+      r.evals--;
+      r.ok("inapplicable-history");
+      continue;
+    }
     if (fail.empty() && g_fdlog.double_close) fail = "a descriptor was closed twice (second close hit a descriptor that was no longer owned)";
     if (fail.empty() && !g_fdlog.live.empty()) fail = vf::fmt("%zu descriptor(s) leaked after both objects were destroyed", g_fdlog.live.size());
     for (int fd : g_fdlog.live) __real_close(fd);
     g_fdlog.active = false;
     r.nontriv();
     r.transitions += len;
-    if (!fail.empty()) r.fail("scoped_fd:ownership", [&] { return hist() + ":: " + fail; });
-    else r.ok("closed-exactly-once");
+    if (!fail.empty()) r.fail("scoped_fd:ownership", [&] { return hist() + " :: " + fail; });
+    else r.ok(unwind ? "closed-exactly-once/unwinding" : "closed-exactly-once");
   }
   rm_rf(dir);
-  r.bound = vf::fmt("all applicable histories of length <=%zu over 12 operations on two objects", depth);
+  r.bound = vf::fmt("all applicable histories of length <=%zu over %d operations on two objects (every constructor and open overload, failed opens, self-move), each ended by leaving the scope or by an exception", depth, (int)NSOP);
 }
 
 // ---- Poll ---------------------------------------------------------------------------------------------------
@@ -661,13 +914,19 @@ VF_SECTION(poll_histories, 1, 1, 240) {
   int a[2], b[2], c[2];
   if (::pipe(a) || ::pipe(b) || ::pipe(c)) { perror("pipe"); _exit(3); }
   if (write(a[1], "x", 1) != 1) _exit(3);
-  // descriptors: a[0] readable now, b[0] not readable, c[1] writable
-  int fds[3] = {a[0], b[0], c[1]};
-  std::sort(fds, fds + 3);
+  // descriptors: a[0] readable now, b[0] not readable, c[1] writable; plus the two extreme values of the key type, which are
+  // no open descriptors: INT_MIN (negative: ignored by the kernel) and INT_MAX (reported as POLLNVAL)
+  const int closed_fd = INT_MAX;
+  const int NFD = 5;
+  int fds[NFD] = {INT_MIN, a[0], b[0], c[1], closed_fd};
+  std::sort(fds, fds + NFD);
+  const std::vector<short> evs = r.thorough() ? std::vector<short>{POLLIN, POLLOUT, (short)(POLLIN | POLLOUT), POLLPRI, 0, (short)-1, (short)0x8000}
+                                              : std::vector<short>{POLLIN, POLLOUT, (short)(POLLIN | POLLOUT), POLLPRI, (short)-1};
   struct Op { int kind; int fd; short ev; };
   std::vector<Op> ops;
-  for (int fd : fds) { ops.push_back({0, fd, POLLIN}); ops.push_back({0, fd, POLLOUT}); ops.push_back({0, fd, (short)(POLLIN | POLLOUT)}); ops.push_back({1, fd, 0}); }
-  auto opname = [&](const Op& o) { return o.kind ? vf::fmt("remove(fd#%d)", (int)(std::find(fds, fds + 3, o.fd) - fds)) : vf::fmt("add(fd#%d,%s)", (int)(std::find(fds, fds + 3, o.fd) - fds), o.ev == POLLIN ? "IN" : o.ev == POLLOUT ? "OUT" : "IN|OUT"); };
+  for (int fd : fds) { for (short ev : evs) ops.push_back({0, fd, ev}); ops.push_back({1, fd, 0}); }
+  auto fdname = [&](int fd) { return vf::fmt("fd#%d%s", (int)(std::find(fds, fds + NFD, fd) - fds), fd == INT_MIN ? "(INT_MIN)" : fd == closed_fd ? "(INT_MAX)" : ""); };
+  auto opname = [&](const Op& o) { return o.kind ? vf::fmt("remove(%s)", fdname(o.fd).c_str()) : vf::fmt("add(%s,0x%04X)", fdname(o.fd).c_str(), (unsigned)(unsigned short)o.ev); };
   // E-BFS to a fixpoint: state = history, canonical form = the private vector + model
   struct St { std::vector<int> hist; };
   std::map<std::string, bool> seen;
@@ -693,12 +952,16 @@ VF_SECTION(poll_histories, 1, 1, 240) {
     // reference readiness: the kernel asked directly about the model's set
     std::vector<struct pollfd> ref;
     for (auto& [fd, ev] : model) ref.push_back({fd, ev, 0});
-    ::poll(ref.data(), ref.size(), 0);
+    __real_poll(ref.data(), ref.size(), 0);
     std::map<int, short> wantr;
     for (auto& pf : ref) if (pf.revents) wantr[pf.fd] = pf.revents;
-    auto got = p.poll(0);
-    std::map<int, short> gotr(got.begin(), got.end());
-    if (gotr != wantr) return {"Poll:poll-result", vf::fmt("poll(0) reported %zu ready descriptors, a direct poll of the same set reports %zu", gotr.size(), wantr.size())};
+    // explicit and defaulted timeout (0: never blocks, also on a set where nothing is ready)
+    for (int form = 0; form < 2; form++) {
+      auto got = form ? p.poll() : p.poll(0);
+      std::map<int, short> gotr(got.begin(), got.end());
+      if (gotr != wantr) return {"Poll:poll-result", vf::fmt("%s reported %zu ready descriptors, a direct poll of the same set reports %zu", form ? "poll()" : "poll(0)", gotr.size(), wantr.size())};
+      if (canon(p) != want) return {"Poll:descriptor-set", "after poll() the tracked list is [" + canon(p) + "], a map would hold [" + want + "]"};
+    }
     (void)h;
     return {"", ""};
   };
@@ -733,9 +996,8 @@ VF_SECTION(poll_histories, 1, 1, 240) {
   r.counters["bfs_max_depth"] = maxdepth;
   r.counters["bfs_fixpoint"] = 1;
   // un-merged histories (validates the merging): every sequence up to the depth
-  size_t depth = r.thorough() ? 5 : 4;
+  size_t depth = r.thorough() ? 4 : 3;
   uint64_t unmerged = 0;
-  std::vector<uint32_t> radix(depth, (uint32_t)ops.size());
   for (size_t len = 1; len <= depth; len++) {
     for (vf::Odometer od(std::vector<uint32_t>(len, (uint32_t)ops.size())); !od.done; od.step()) {
       std::vector<int> h(od.d.begin(), od.d.end());
@@ -749,12 +1011,44 @@ VF_SECTION(poll_histories, 1, 1, 240) {
       if (!key.empty()) r.fail(key, [&] { return hstr(h) + ":: " + why; });
     }
   }
-  r.nontrivial = r.evals;
   r.counters["unmerged_histories"] = unmerged;
-  if (r.wants_desc() || true) r.samples.push_back("Poll history: add(fd#0,IN); add(fd#0,OUT); remove(fd#0); -> empty() must be true");
+  // a poll() interrupted by a signal (EINTR): what it returns is outside the statement; the tracked set must be unchanged
+  // and the next poll must report readiness as usual.  Every subset of the 5 descriptors.
+  for (uint32_t mask = 0; mask < (1u << NFD); mask++) {
+    Poll p;
+    std::map<int, short> model;
+    for (int i = 0; i < NFD; i++) if (mask & (1u << i)) { p.add(fds[i], POLLIN | POLLOUT); model[fds[i]] = POLLIN | POLLOUT; }
+    g_poll_eintr = 1;
+    std::string what, out = vf::outcome([&] { p.poll(0); }, &what);
+    g_poll_eintr = 0;
+    r.evals++;
+    r.hist["dont-care:poll-interrupted-" + out]++;
+    auto [key, why] = check({}, p, model);
+    if (!key.empty()) r.fail(key, [&] { return vf::fmt("descriptor subset 0x%X, after a poll() interrupted by EINTR :: ", mask) + why; });
+  }
+  // remove(fd, close_fd=true): map semantics as for remove(fd); whether the descriptor gets closed is the documented
+  // purpose of the flag but outside the statement (recorded, not compared)
+  for (uint32_t mask = 0; mask < 8; mask++) for (int target = 0; target < 3; target++) {
+    int d3[3] = {dup(a[0]), dup(b[0]), dup(c[1])};
+    std::sort(d3, d3 + 3);
+    Poll p;
+    std::map<int, short> model;
+    for (int i = 0; i < 3; i++) if (mask & (1u << i)) { p.add(d3[i], POLLIN); model[d3[i]] = POLLIN; }
+    p.remove(d3[target], true);
+    model.erase(d3[target]);
+    bool closed = fcntl(d3[target], F_GETFD) < 0;
+    r.evals++;
+    r.hist[std::string("dont-care:remove-close_fd-") + ((mask >> target) & 1 ? "tracked-" : "untracked-") + (closed ? "closed" : "left-open")]++;
+    if (closed) { int nfd = dup(2); if (nfd != d3[target]) { dup2(nfd, d3[target]); __real_close(nfd); } }  // keep the number valid for the reference poll
+    auto [key, why] = check({}, p, model);
+    if (!key.empty()) r.fail(key, [&] { return vf::fmt("tracked subset 0x%X, remove(#%d, true) :: ", mask, target) + why; });
+    for (int fd : d3) __real_close(fd);
+  }
+  r.nontrivial = r.evals;
+  if (r.wants_desc() || true) r.samples.push_back("Poll history: add(fd#1,IN); add(fd#1,OUT); remove(fd#1); -> empty() must be true");
   r.ok("poll-bfs-done");
   for (int fd : {a[0], a[1], b[0], b[1], c[0], c[1]}) __real_close(fd);
-  r.bound = vf::fmt("BFS to fixpoint over add/remove on 3 descriptors x {IN,OUT,IN|OUT}; plus all un-merged histories up to length %zu", depth);
+  r.bound = vf::fmt("BFS to fixpoint over add/remove on 5 descriptor values (3 pipe ends, INT_MIN, INT_MAX) x %zu event masks (IN, OUT, IN|OUT, PRI, 0xFFFF%s); all un-merged histories up to length %zu; poll(0) and poll() in every state; EINTR during poll on all 32 subsets; remove(fd,true) on 24 set/target combinations", evs.size(), r.thorough() ? ", 0, 0x8000" : "", depth);
 }
 
 VF_MAIN()
